@@ -73,6 +73,16 @@ for idx, state in spec["files"].items():
         with open(path, "wb") as f:
             pickle.dump(POOL[names[int(state)]].doit(), f)
 expr = POOL[names[spec["call"]]]
+if spec.get("nested_before_replace") is not None:
+    _replace, _state = os.replace, {"done": False}
+
+    def _scheduled_replace(src, dst):
+        if not _state["done"]:
+            _state["done"] = True
+            perform_cached_doit(POOL[names[spec["nested_before_replace"]]], d)  # the other process's complete call
+        return _replace(src, dst)
+
+    os.replace = _scheduled_replace
 try:
     got = perform_cached_doit(expr, d)
     ok = got == expr.doit()
@@ -130,6 +140,8 @@ def bmc(prog, table, *, n_procs, n_calls, crash, want, T, allowed=None):
     # state
     file_ = [[I(f"file_{t}_{k}") for k in range(nK)] for t in range(T + 1)]
     tmp = [[I(f"tmp_{t}_{p}") for p in range(n_procs)] for t in range(T + 1)]
+    shared_tmp = not getattr(prog, "tmp_private", True)
+    tfile = [[I(f"tmpfile_{t}_{k}") for k in range(nK)] for t in range(T + 1)]  # shared temporary file per key (only if shared_tmp)
     pc = [[I(f"pc_{t}_{p}") for p in range(n_procs)] for t in range(T + 1)]
     call = [[I(f"call_{t}_{p}") for p in range(n_procs)] for t in range(T + 1)]
     key = [[I(f"key_{t}_{p}") for p in range(n_procs)] for t in range(T + 1)]
@@ -137,7 +149,7 @@ def bmc(prog, table, *, n_procs, n_calls, crash, want, T, allowed=None):
     badv = [z3.Bool(f"badvalue_{t}") for t in range(T + 1)]
     badr = [z3.Bool(f"badraise_{t}") for t in range(T + 1)]
     for k in range(nK):
-        s.add(file_[0][k] == 0)
+        s.add(file_[0][k] == 0, tfile[0][k] == 0)
     for p in range(n_procs):
         s.add(tmp[0][p] == 0, pc[0][p] == 0, call[0][p] == 0, key[0][p] == 0, val[0][p] == -1)
     s.add(z3.Not(badv[0]), z3.Not(badr[0]))
@@ -167,6 +179,15 @@ def bmc(prog, table, *, n_procs, n_calls, crash, want, T, allowed=None):
                         cs.append(file_[t + 1][k] == z3.If(except_key == k, new, file_[t][k]))
                 return cs
 
+            def tmps_same(except_key=None, new=None):
+                cs = []
+                for k in range(nK):
+                    if except_key is None or not shared_tmp:
+                        cs.append(tfile[t + 1][k] == tfile[t][k])
+                    else:
+                        cs.append(tfile[t + 1][k] == z3.If(except_key == k, new, tfile[t][k]))
+                return cs
+
             def finish_call(p=p):
                 more = call[t][p] + 1 < n_calls
                 return [call[t + 1][p] == call[t][p] + 1, pc[t + 1][p] == z3.If(more, 0, DONE), val[t + 1][p] == -1, key[t + 1][p] == key[t][p]]
@@ -174,7 +195,7 @@ def bmc(prog, table, *, n_procs, n_calls, crash, want, T, allowed=None):
             fk = sel(file_[t], key[t][p])
             # crash instead of a step
             # the process is killed here; the user starts the program again: the next call runs in a new process
-            crash_case = z3.And(who[t] == p, alive, crash_at == t, *finish_call(), tmp[t + 1][p] == tmp[t][p], *keep_others(), *files_same(),
+            crash_case = z3.And(who[t] == p, alive, crash_at == t, *finish_call(), tmp[t + 1][p] == tmp[t][p], *keep_others(), *files_same(), *tmps_same(),
                                 badv[t + 1] == badv[t], badr[t + 1] == badr[t])  # fmt: skip
             step_cases.append(crash_case)
             for i, op in enumerate(ops):
@@ -182,6 +203,7 @@ def bmc(prog, table, *, n_procs, n_calls, crash, want, T, allowed=None):
                 same_local = [call[t + 1][p] == call[t][p], key[t + 1][p] == key[t][p], val[t + 1][p] == val[t][p], tmp[t + 1][p] == tmp[t][p]]
                 nb = [badv[t + 1] == badv[t], badr[t + 1] == badr[t]]
                 kind = op[0]
+                tmp_eff = tmps_same()  # the shared temporary files stay as they are unless this op touches TMP
                 if kind == "key":
                     eff = [pc[t + 1][p] == i + 1, key[t + 1][p] == sel(key_table, cur_expr), call[t + 1][p] == call[t][p], val[t + 1][p] == val[t][p], tmp[t + 1][p] == tmp[t][p], *files_same(), *nb]
                 elif kind == "exists?":
@@ -216,11 +238,20 @@ def bmc(prog, table, *, n_procs, n_calls, crash, want, T, allowed=None):
                         eff = [pc[t + 1][p] == i + 1, *same_local, *files_same(key[t][p], z3.IntVal(1)), *nb]
                     else:
                         eff = [pc[t + 1][p] == i + 1, call[t + 1][p] == call[t][p], key[t + 1][p] == key[t][p], val[t + 1][p] == val[t][p], tmp[t + 1][p] == 1, *files_same(), *nb]
+                        tmp_eff = tmps_same(key[t][p], z3.IntVal(1))
                 elif kind == "dump":
                     if op[1] == "FILE":
                         eff = [pc[t + 1][p] == i + 1, *same_local, *files_same(key[t][p], val[t][p] + 2), *nb]
                     else:
                         eff = [pc[t + 1][p] == i + 1, call[t + 1][p] == call[t][p], key[t + 1][p] == key[t][p], val[t + 1][p] == val[t][p], tmp[t + 1][p] == val[t][p] + 2, *files_same(), *nb]
+                        tmp_eff = tmps_same(key[t][p], val[t][p] + 2)
+                elif kind == "replace" and shared_tmp:
+                    tk = sel(tfile[t], key[t][p])
+                    moved = z3.And(pc[t + 1][p] == i + 1, call[t + 1][p] == call[t][p], key[t + 1][p] == key[t][p], val[t + 1][p] == val[t][p], tmp[t + 1][p] == 0,
+                                   *files_same(key[t][p], tk), *tmps_same(key[t][p], z3.IntVal(0)), *nb)  # fmt: skip
+                    missing = z3.And(*finish_call(), tmp[t + 1][p] == tmp[t][p], *files_same(), *tmps_same(), badr[t + 1], badv[t + 1] == badv[t])  # FileNotFoundError
+                    eff = [z3.If(tk != 0, moved, missing)]
+                    tmp_eff = []
                 elif kind == "replace":
                     eff = [pc[t + 1][p] == i + 1, call[t + 1][p] == call[t][p], key[t + 1][p] == key[t][p], val[t + 1][p] == val[t][p], tmp[t + 1][p] == 0, *files_same(key[t][p], tmp[t][p]), *nb]
                 elif kind == "unlink":
@@ -228,6 +259,7 @@ def bmc(prog, table, *, n_procs, n_calls, crash, want, T, allowed=None):
                         eff = [pc[t + 1][p] == i + 1, *same_local, *files_same(key[t][p], z3.IntVal(0)), *nb]
                     else:
                         eff = [pc[t + 1][p] == i + 1, call[t + 1][p] == call[t][p], key[t + 1][p] == key[t][p], val[t + 1][p] == val[t][p], tmp[t + 1][p] == 0, *files_same(), *nb]
+                        tmp_eff = tmps_same(key[t][p], z3.IntVal(0))
                 elif kind == "return_val":
                     wrong = sel(cls_table, val[t][p]) != sel(cls_table, cur_expr)
                     eff = [*finish_call(), tmp[t + 1][p] == tmp[t][p], *files_same(), badv[t + 1] == z3.Or(badv[t], wrong), badr[t + 1] == badr[t]]
@@ -235,12 +267,12 @@ def bmc(prog, table, *, n_procs, n_calls, crash, want, T, allowed=None):
                     eff = [*finish_call(), tmp[t + 1][p] == tmp[t][p], *files_same(), badv[t + 1], badr[t + 1] == badr[t]]  # returns None
                 else:
                     raise Unsupported(f"op {op}")
-                step_cases.append(z3.And(here, *eff, *keep_others()))
+                step_cases.append(z3.And(here, *eff, *tmp_eff, *keep_others()))
             del frame
         # stutter when the chosen process cannot move
         stuck = z3.And(*[z3.Implies(who[t] == p, pc[t][p] < 0) for p in range(n_procs)])
         stutter = z3.And(stuck, *[z3.And(pc[t + 1][p] == pc[t][p], call[t + 1][p] == call[t][p], key[t + 1][p] == key[t][p], val[t + 1][p] == val[t][p], tmp[t + 1][p] == tmp[t][p]) for p in range(n_procs)],
-                         *[file_[t + 1][k] == file_[t][k] for k in range(nK)], badv[t + 1] == badv[t], badr[t + 1] == badr[t])  # fmt: skip
+                         *[file_[t + 1][k] == file_[t][k] for k in range(nK)], *[tfile[t + 1][k] == tfile[t][k] for k in range(nK)], badv[t + 1] == badv[t], badr[t + 1] == badr[t])  # fmt: skip
         s.add(z3.Or(stutter, *step_cases))
     s.add(badv[T] if want == "value" else badr[T])
     r = s.check()
@@ -265,7 +297,10 @@ def bmc(prog, table, *, n_procs, n_calls, crash, want, T, allowed=None):
     for e_idx in range(nE):
         st = ev(file_[t_bad - 1][key_of[e_idx]])
         files[str(e_idx)] = None if st == 0 else "partial" if st == 1 else st - 2
-    return "sat", {"history": hist, "failing_call": failing_expr, "files_before_failing_step": files}
+    pc_bad = ev(pc[t_bad - 1][p_bad])
+    others = [ev(choice[q][min(ev(call[t_bad - 1][q]), n_calls - 1)]) for q in range(n_procs) if q != p_bad]
+    return "sat", {"history": hist, "failing_call": failing_expr, "files_before_failing_step": files,
+                   "failing_op": ops[pc_bad][0] if pc_bad >= 0 else None, "other_calls": others}
 
 
 def worker(config, tier, seed):
@@ -304,6 +339,11 @@ def worker(config, tier, seed):
             scratch = tempfile.mkdtemp(prefix="c16_", dir="/tmp")
             try:
                 spec = {"dir": os.path.join(scratch, "cache"), "files": cex["files_before_failing_step"], "call": cex["failing_call"]}
+                if want == "raise" and cex.get("failing_op") == "replace" and cex.get("other_calls"):
+                    # the schedule "the other process runs its whole call between this process's dump and replace",
+                    # replayed in one interpreter by running the other call from inside os.replace
+                    spec["nested_before_replace"] = cex["other_calls"][0]
+                    spec["files"] = {}
                 rep = run_py(REPLAY_SRC, config["mode"], json.dumps(spec))
             finally:
                 shutil.rmtree(scratch, ignore_errors=True)
